@@ -48,6 +48,7 @@ type Case struct {
 	Max     map[string]float64 // max-aggregated measured values
 	Trace   []string          // verbose trace (only kept when Verbose or on violation)
 	Inconcl string            // non-empty: case was inconclusive for this reason
+	Raced   bool              // the race detector reported a race while this case's bubble ran
 }
 
 func (c *Case) Hit(rule string)            { c.Rules[rule]++ }
@@ -70,18 +71,33 @@ func (c *Case) Fail(rule, sig, f string, a ...any) {
 }
 
 // Bubble runs f inside a synctest bubble and converts the bubble's deadlock /
-// leaked-goroutine panics (and any panic of f itself) into a string.
+// leaked-goroutine panics (and any panic of f itself) into a string. The bubble
+// is entered from a helper goroutine: when the race detector reported a race
+// during the bubble, synctest.Test calls t.FailNow (runtime.Goexit), which must
+// not end the worker; such a case is flagged in c.Raced instead.
 func (c *Case) Bubble(f func()) (panicText string) {
-	defer func() {
-		if r := recover(); r != nil {
-			panicText = fmt.Sprint(r)
-			if !strings.HasPrefix(panicText, "deadlock:") {
-				panicText += "\n" + string(debug.Stack())
+	done := make(chan struct{})
+	returned := false
+	go func() {
+		defer close(done)
+		defer func() {
+			if r := recover(); r != nil {
+				panicText = fmt.Sprint(r)
+				if !strings.HasPrefix(panicText, "deadlock:") {
+					panicText += "\n" + string(debug.Stack())
+				}
+				returned = true
 			}
-		}
+		}()
+		synctest.Test(c.T, func(t *testing.T) { f() })
+		returned = true
 	}()
-	synctest.Test(c.T, func(t *testing.T) { f() })
-	return ""
+	<-done
+	if !returned {
+		c.Raced = true
+		c.Add("cases_with_race_report", 1)
+	}
+	return panicText
 }
 
 // Prop is a registered property check.
@@ -130,6 +146,7 @@ type resultLine struct {
 	Max     map[string]float64 `json:"max,omitempty"`
 	Trace   []string           `json:"trace,omitempty"`
 	Inconcl string             `json:"inconcl,omitempty"`
+	Raced   bool               `json:"raced,omitempty"`
 }
 
 func envInt(name string, def int) int {
@@ -205,7 +222,7 @@ func runWorker(t *testing.T) {
 			p.Run(c)
 		}()
 		rl := resultLine{Case: i, Hash: hashKey(c.Key), NT: c.NT, Viol: c.Viol, Rules: c.Rules, Events: c.Events,
-			Inter: c.Inter, Extra: c.Extra, Max: c.Max, Inconcl: c.Inconcl}
+			Inter: c.Inter, Extra: c.Extra, Max: c.Max, Inconcl: c.Inconcl, Raced: c.Raced}
 		if i-from < samples || len(c.Viol) > 0 || verbose {
 			rl.Sample = c.Sample
 		}
